@@ -683,30 +683,21 @@ def _user_frames(det):
 
 
 KNOWN_CLASSES = [
+    # Repaired in /repo and therefore no longer classes (a crash with one of these signatures is a NEW violation; their
+    # witnesses stay in corpus/C12.jsonl as regression cases): annotCtorCall 0e3888a, whileOutsideFunction 211255f,
+    # classKeywordImplicitAny 3858618, sliceLiteralBounds 97cec89, overloadDetailEllipsis 633bfb7, suggestedTypeOfMetaclass fcd36f7.
     # (class, kinds, signature test, syntactic predicate on (tree, lineno, col, detail, ctx))
     ("userCodeRaises", ("internal_error", "raises"), lambda s, d: _user_frames(d), lambda *a: True),
     ("unsupportedAnnotNode", ("internal_error",), lambda s, d: s == ("NotImplementedError", "annotations.py::generic_visit"), _p_annot_kind),
-    ("annotCtorCall", ("internal_error",), lambda s, d: s[1] == "annotations.py::visit_Call", _p_annot_call),
     ("matchValueNotLiteral", ("internal_error",), lambda s, d: s == ("no-traceback", "Match value is not a literal"),
      lambda t, ln, col, d, c: any(isinstance(n, ast.MatchValue) for n in nodes_at(t, ln, col))),
-    ("whileOutsideFunction", ("internal_error",), lambda s, d: s == ("TypeError", "name_check_visitor.py::visit_While"),
-     lambda t, ln, col, d, c: any(isinstance(n, ast.While) and not _in_function(t, n) for n in nodes_at(t, ln, col))),
-    ("classKeywordImplicitAny", ("internal_error",), lambda s, d: s == ("AttributeError", "name_check_visitor.py::visit"),
-     lambda t, ln, col, d, c: c.get("implicit_any", False) and any(isinstance(n, ast.ClassDef) and n.keywords for n in nodes_at(t, ln, col))),
-    ("sliceLiteralBounds", ("internal_error",), lambda s, d: s in (("TypeError", "implementation.py::inner"), ("ValueError", "implementation.py::inner")),
-     lambda t, ln, col, d, c: any(isinstance(n, ast.Subscript) and isinstance(n.slice, ast.Slice) and (n.slice.lower or n.slice.upper or n.slice.step)
-                                  for n in _under(t, ln, col))),
     ("overloadStarArgs", ("internal_error",), lambda s, d: s == ("AssertionError", "signature.py::check_call_with_bound_args"),
      lambda t, ln, col, d, c: any(isinstance(n, ast.Call) and (any(isinstance(a, ast.Starred) for a in n.args) or any(k.arg is None for k in n.keywords))
                                   for n in _under(t, ln, col))),
-    ("overloadDetailEllipsis", ("internal_error",), lambda s, d: s == ("AttributeError", "value.py::display"),
-     lambda t, ln, col, d, c: bool(nodes_at(t, ln, col))),
     ("metaclassAttrRecursion", ("internal_error",), lambda s, d: s[0] == "RecursionError" and "has_attribute" in s[1],
      lambda t, ln, col, d, c: any(isinstance(n, ast.Attribute) and ((isinstance(n.value, ast.Attribute) and n.value.attr == "__class__") or
                                                                      (isinstance(n.value, ast.Call) and isinstance(n.value.func, ast.Name) and n.value.func.id == "type"))
                                   for n in _under(t, ln, col))),
-    ("suggestedTypeOfMetaclass", ("internal_error",), lambda s, d: s == ("TypeError", "suggested_type.py::get_shared_type"),
-     lambda t, ln, col, d, c: any(isinstance(n, ast.Name) and n.id == "type" and isinstance(n.ctx, ast.Load) for n in ast.walk(t))),
     ("constrainedTypeVarBoolability", ("internal_error",), lambda s, d: s == ("AssertionError", "boolability.py::_get_boolability_no_mvv"), _p_typevar_constraints),
     ("newTypeOfNonClass", ("internal_error",), lambda s, d: s == ("AttributeError", "typeshed.py::_get_info_for_name"), _p_newtype_nonclass),
     ("stringAnnotationPosition", ("bad-col", "bad-line"), lambda s, d: True, _p_string_position),
@@ -794,7 +785,8 @@ def impl_failures(res, lines):
 
 
 LINE_KINDS = ["x = 1", "", "# static analysis: ignore", "# static analysis: ignore[undefined_name]", "y = foo  # static analysis: ignore",
-              "z = bar  # static analysis: ignore[undefined_name]", "    indented = 2", "# comment", "w = 'é'", "pass"]
+              "z = bar  # static analysis: ignore[undefined_name]", "    indented = 2", "# comment", "w = 'é'", "pass",
+              "a = 1 \x0c # static analysis: ignore", "s = '\x1c'"]
 UNIT_CODES = ["undefined_name", "incompatible_call", "internal_error", "unused_ignore", None]
 
 
@@ -935,6 +927,8 @@ def gen_ann_src(rng, d=3):
         return "%s(%s)" % (f, ", ".join([a() for _ in range(rng.randint(0, 2))] + (["k=%s" % a()] if rng.random() < 0.3 else [])))
     if k == "ctor":
         c = rng.choice(["NT", "TV", "PS", "dep", "mod.NT", "mod.TV"])
+        if rng.random() < 0.3:     # arguments that do not fit the runtime constructor (reported, not raised, since 0e3888a)
+            return "%s(%s)" % (c, ", ".join([a() for _ in range(rng.randint(0, 3))] + (["k=%s" % a()] if rng.random() < 0.3 else [])))
         if c in ("NT", "mod.NT"):
             return "%s('N', %s)" % (c, a())
         if c in ("TV", "mod.TV"):
@@ -981,7 +975,7 @@ def annot_stream(ctx, with_model=True):
 
     rng = ctx.rng
     fixed = ["tuple[int, *tuple[str, ...]]", "tuple[1:2]", "int | str", "int + tuple[1:2]", "~(lambda: 1)", "undef(*int)", "NT('N', *int)", "TV('T', bound=lambda: 1)",
-             "dep('m', *int, category=1)", "dep('m', *int)", "int(lambda: 1)", "{**int}", "{int: (yield)}", "mod.NT('N', (q := 1))", "(mod.x)(lambda: 1)", "-(lambda: 1)"]
+             "dep('m', *int, category=1)", "dep('m', *int)", "int(lambda: 1)", "NT()", "NT(1, 2, 3)", "TV()", "TV(1)", "TV(obj, mod.C)", "PS(1)", "PS()", "NT('N', int, k=1)", "{**int}", "{int: (yield)}", "mod.NT('N', (q := 1))", "(mod.x)(lambda: 1)", "-(lambda: 1)"]
     srcs = fixed + [gen_ann_src(rng, rng.choice([1, 2, 2, 3])) for _ in range(ctx.n(600, 8000))]
     cases = []
     for s in srcs:
@@ -1009,20 +1003,17 @@ def annot_stream(ctx, with_model=True):
         if mo is not None:
             m = re.match(r"res=(\S+) D=(\S+)$", mo)
             model, cls = (m.group(1), m.group(2)) if m else (mo, "-")
-            if not impl.startswith("EXC"):
-                ctx.corr("annot")
-                if model != impl:
-                    ctx.disagree("annot", case, impl, model)
-            else:
-                ctx.tag("annot_other_exception")   # e.g. NewType(...) / TypeVar(...) called with unfit arguments: outside the model
+            ctx.corr("annot")
+            if model != impl:
+                ctx.disagree("annot", case, impl, model)
             if len([x for x in ctx.samples if isinstance(x, dict) and x.get("stream") == "annot"]) < 1 and impl.startswith("raise"):
                 ctx.sample(dict(case, impl=impl, model=model, D=cls))
         if impl.startswith("raise"):
             ctx.candidate(case, "annotations._Visitor raised: %s" % impl, cls=cls if cls not in (None, "-") else None,
                           conforms=(model is None or model == impl), stream="annot")
         elif impl.startswith("EXC"):
-            ctor = any(isinstance(c, ast.Call) and _ctor_of(c.func, ns) != "-" for c in ast.walk(ast.parse(s, mode="eval")))
-            ctx.candidate(case, "annotations._Visitor raised: %s" % impl, cls="annotCtorCall" if ctor else None, conforms=True, stream="annot")
+            # since fix 0e3888a the NewType / TypeVar / ParamSpec branches report instead of raising: no exception is expected
+            ctx.candidate(case, "annotations._Visitor raised: %s" % impl, cls=None, conforms=False, stream="annot")
 
 
 # =================================================================== (2) value API
@@ -1403,12 +1394,20 @@ def prog_stream(ctx, with_model=True):
         emit_e2e(ctx, emit_jobs)
 
 
+def file_lines(src):
+    """`BaseNodeVisitor._lines()` without the re-appended newline: split only where the tokenizer splits."""
+    lines = re.split(r"\r\n|\r|\n", src)
+    if lines and not lines[-1]:
+        lines.pop()
+    return lines
+
+
 def emit_e2e(ctx, jobs):
     """The raw show_error stream recorded on the fuzzer's programs -> Lean emit model -> same failure list?"""
     lines_out, kept = [], []
     for src, r in jobs:
         toks = encode_calls(r["raw"])
-        lines = src.splitlines()
+        lines = file_lines(src)
         if toks is None or not src.isascii():
             ctx.tag("emit_e2e_skipped")
             continue
@@ -1437,6 +1436,7 @@ ANCHORS = [
     ("pyanalyze/node_visitor.py", "BaseNodeVisitor.show_error"),
     ("pyanalyze/node_visitor.py", "BaseNodeVisitor.show_errors_for_unused_ignores"),
     ("pyanalyze/node_visitor.py", "BaseNodeVisitor.show_errors_for_bare_ignores"),
+    ("pyanalyze/node_visitor.py", "BaseNodeVisitor._lines"),
     ("pyanalyze/annotations.py", "_Visitor"),
     ("pyanalyze/annotations.py", "_eval_forward_ref"),
     ("pyanalyze/annotations.py", "value_from_ast"),
